@@ -11,6 +11,8 @@ COMMENT_TEXTS = [
     "! plain", "!", "!! double", "! it's", '! say "hi', "! trailing &", "! x = 1; y = 2", "!$omp parallel do",
     "!dir$ ivdep", "!$ x = 1", "! 'quoted' \"both\"", "!gcc$ attributes", "!$acc loop", "! end if", "!end do",
     "! a & b", "!x", "! 100 continue", "!$OMP END PARALLEL", "!DIR$ NOUNROLL", "! (unbalanced", "! two  blanks",
+    "! disabled for now: !dir$ ivdep", "! old hint was !gcc$ unroll 4", "! lengths come from misc$opt c$x", "! was !$omp do",
+    "!!$omp not a directive", "! *$x",
 ]
 
 DEFAULTS = dict(
@@ -124,7 +126,9 @@ def render(P, rng, opts=None):
         parts = [stmt_text(P.stmts[k], rng, o) for k in group]
         for k, t in zip(group, parts):
             stmt_texts[k] = t
-        text = "; ".join(parts)
+        text = parts[0]
+        for extra in parts[1:]:
+            text += rng.choice(["; ", "; ", ";", " ; ", "; ; ", ";; "]) + extra
         if rng.random() < o["p_trailing_semi"]:
             text += rng.choice([";", " ;"])
         start_line = len(lines) + 1
@@ -149,6 +153,7 @@ def render(P, rng, opts=None):
                     flags.append(instr)
                     prev = p
                 pieces.append(text[prev:])
+                need_sep = False
                 for pi, piece in enumerate(pieces):
                     is_last = pi == len(pieces) - 1
                     if pi == 0:
@@ -161,12 +166,20 @@ def render(P, rng, opts=None):
                             # nothing may stand between the '&' and the rest of the literal;
                             # without a leading '&' the literal resumes in column 1
                             line = (ind + "&" + piece) if lead else piece
+                        elif need_sep:
+                            line = ind + ("& " if lead else "  ") + piece
+                            need_sep = False
                         else:
                             line = ind + (rng.choice(["&", "& ", "  &"]) if lead else "  ") + piece
                     if not is_last:
                         instr_after = flags[pi]
                         if instr_after:
                             line = line + "&"
+                        elif rng.random() < 0.15 and line.strip():
+                            # no blank between the last token and '&': the next line must then supply the
+                            # separator unless the tokens around the break cannot merge
+                            need_sep = not _glue_safe(line, pieces[pi + 1])
+                            line = line.rstrip() + "&"
                         else:
                             line = line + rng.choice([" &", "&", "  &  "])
                         lines.append(line)
@@ -201,6 +214,15 @@ def render(P, rng, opts=None):
     text = "\n".join(lines) + "\n"
     return text, {"stmt_first": first, "stmt_last": last, "comments": comments, "n_lines": len(lines),
                   "stmt_texts": [stmt_texts[k] for k in range(n)]}
+
+
+def _glue_safe(line, nxt):
+    """With '&' on both sides the two lines are joined character by character: dropping the blank in front of
+    the trailing '&' is only safe if the tokens around the break cannot merge."""
+    a = line.rstrip()[-1:]
+    b = nxt.lstrip()[:1]
+    word = lambda ch: ch.isalnum() or ch in "_.'\""  # noqa: E731
+    return not (word(a) and word(b)) and not (a in "*/=<>:(" and b in "*/=<>:)")
 
 
 def _joinable(st):
